@@ -232,6 +232,7 @@ def execute(cfg, script, expect, changed_pos, T, reward_fn, oracles, learner_cla
         raise AlgoCrash("constructor", RuntimeError("did not return within the branch budget (hang)"), "")
     except Exception as e:  # noqa
         raise AlgoCrash("constructor", e, traceback.format_exc())
+    by = Bystander(cfg["bystander"], sm, src, ctx.rec, guard) if cfg.get("bystander") else None
     if construct_hook:
         construct_hook(ctx)
     ctx.attach_all(force=True)
@@ -243,6 +244,8 @@ def execute(cfg, script, expect, changed_pos, T, reward_fn, oracles, learner_cla
         ctx.calls_mark = len(ctx.rec.calls)
         lab = t if labels is None else labels(t)
         ctx.label = lab
+        if by:
+            by.pull(t)
         if guard:
             guard.reset()
         try:
@@ -268,6 +271,8 @@ def execute(cfg, script, expect, changed_pos, T, reward_fn, oracles, learner_cla
         r = reward_fn(ctx)
         ctx.r = r
         ctx.rewards.append(r)
+        if by:
+            by.receive(t)
         if guard:
             guard.reset()
         try:
@@ -290,6 +295,54 @@ def execute(cfg, script, expect, changed_pos, T, reward_fn, oracles, learner_cla
         raise HarnessError("cannot own the randomness of %s: NumPy's global generator advanced during an execution "
                            "(a draw bypassed the RNG seam)" % cfg.get("algo"))
     return src.points, ctx
+
+
+class Bystander:
+    """A second, independently constructed instance (other parameters, other box) that lives next to the object under
+    check: built right AFTER it and driven in lock-step (B.pull, A.pull, B.receive_reward, A.receive_reward).  The
+    oracles never look at it; its expansions are not recorded and its random draws are answered from a private
+    default source, so the execution of the object under check is the one its script describes.  Property-respecting
+    code cannot notice a bystander (C14: instances never influence each other); state shared between instances
+    (class attributes, module globals, memo tables keyed too coarsely) shows up in the main object's own oracle."""
+
+    def __init__(self, cfg, sm, src, rec, guard):
+        self.sm, self.src, self.rec, self.guard = sm, src, rec, guard
+        self.alive = True
+        self.algo = None
+        self.pulled = False
+        self._run(lambda: setattr(self, "algo", configs.build(cfg)[0]))
+
+    def _run(self, fn):
+        if not self.alive:
+            return
+        ExpansionRecorder.ACTIVE = None
+        self.sm.set_source(ChoiceSource([]))
+        n0 = len(self.sm.choice_log)
+        if self.guard:
+            self.guard.reset()
+        try:
+            fn()
+        except (HarnessError, KeyboardInterrupt):
+            raise
+        except BaseException:  # a bystander that crashes or hangs just stops living; it is not under check
+            self.alive = False
+        finally:
+            del self.sm.choice_log[n0:]
+            self.sm.set_source(self.src)
+            ExpansionRecorder.ACTIVE = self.rec
+            if self.guard:
+                self.guard.reset()
+
+    def pull(self, t):
+        def f():
+            self.pulled = self.algo.pull(t) is not None
+            if not self.pulled:
+                self.alive = False
+        self._run(f)
+
+    def receive(self, t):
+        if self.pulled:
+            self._run(lambda: self.algo.receive_reward(t, 0.35 * ((t * 7) % 5) - 0.6))
 
 
 def call_lib(what, fn):
